@@ -36,6 +36,7 @@ def declare(rep):
     rep.rule("C06.quantisation", "registration and look-up quantise with floor((coord - grid.min_axis)/voxel_size), matching axes", floor=9)
     rep.rule("C06.inclusive-registration", "a face is registered in every voxel from its start to its stop index inclusive, in x, y and z", floor=3)
     rep.rule("C06.grid-extent", "the grid is re-dimensioned with the global min / max of the padded boxes in axis order, before registration", floor=1)
+    rep.rule("C06.grid-reset", "re-dimensioning the face grid discards the faces registered in the previous iteration (no pair is presented twice, no stale face pointer)", floor=1)
     rep.rule("C06.lookup-pipeline", "look-up: own voxel -> different cell -> aabb check (box of that face) -> narrow phase; order of run(): boxes, grid, look-up", floor=2)
 
 
@@ -50,6 +51,12 @@ def run(rep, prog, tier):
     registration(rep, prog)
     grid_extent(rep, prog)
     pipeline(rep, prog, cm)
+    for f in c20.grid_fns(prog):
+        if f["name"] == "update_dimensions" and "face *" in f["key"]:
+            if c20.clears_unconditionally(prog, f):
+                rep.ok("C06.grid-reset", prog, f, None, "uspg_4d<face*>::update_dimensions clears the voxel contents unconditionally")
+            else:
+                rep.violation("C06.grid-reset", prog, f, None, "face grid keeps the faces of the previous iteration", "uspg_4d<face*>::update_dimensions does not clear the voxel contents on every call: faces registered in the previous iteration stay in the grid, so a node-face pair is presented (and its force applied) twice, and pointers to faces of removed cells dangle")
 
 
 def padding(rep, prog, cm):
